@@ -12,14 +12,14 @@ from collections import defaultdict
 
 from vlib import sweep
 from vlib.harness import Harness, register
-from vlib.relab import Det, Motor, Signal
+from vlib.relab import Det, Motor, Signal, StatusStageDet
 from vlib.symx import fork_int, fork_range, goal, notrace, only_shard
 from harnesses.c01_documents import OUT, STUBS, _fns
 
 NOT_REPLAYABLE = {"pause", "subscribe", "unsubscribe", "stage", "unstage", "monitor", "unmonitor", "open_run", "close_run", "install_suspender",
                   "remove_suspender", "_start_suspender"}
 IMPLICIT = {"checkpoint", "stage", "unstage", "monitor", "unmonitor", "subscribe", "unsubscribe", "close_run"}
-NOPS = 12
+NOPS = 13
 
 
 def build(prog):
@@ -30,10 +30,11 @@ def build(prog):
 
         m, sig = Motor("m1", lab), Signal("sig", lab)
         det = Det("det", lab, [m])
-        devices = dict(m1=m, sig=sig, det=det)
+        sdet = StatusStageDet("sdet", lab, [m])
+        devices = dict(m1=m, sig=sig, det=det, sdet=sdet)
 
         def plan():
-            st = dict(staged=False, mon=False, sub=None, rew=True)
+            st = dict(staged=False, sstaged=False, mon=False, sub=None, rew=True)
             yield Msg("open_run")
             yield Msg("checkpoint")
             for i, op in enumerate(prog):
@@ -80,11 +81,18 @@ def build(prog):
                 elif op == 11:
                     yield Msg("trigger", det, group="t")
                     yield Msg("wait", None, group="t")
+                elif op == 12:
+                    yield Msg("unstage" if st["sstaged"] else "stage", sdet, group="s")
+                    yield Msg("wait", None, group="s")
+                    st["sstaged"] = not st["sstaged"]
             yield Msg("null", None, "last")
             if st["mon"]:
                 yield Msg("unmonitor", sig)
             if st["staged"]:
                 yield Msg("unstage", det)
+            if st["sstaged"]:
+                yield Msg("unstage", sdet, group="s")
+                yield Msg("wait", None, group="s")
             yield Msg("close_run")
 
         return plan(), devices
@@ -175,7 +183,8 @@ def make(P):
         return _T[key]
 
     def h(o1: int, o2: int, o3: int, o4: int, k1: int, r1: int, k2: int, r2: int) -> str:
-        prog = [fork_int(o, 0, NOPS - 1) for o in [o1, o2, o3, o4][:L]]
+        OPS = P.get("ops") or list(range(NOPS))
+        prog = [OPS[fork_int(o, 0, len(OPS) - 1)] for o in [o1, o2, o3, o4][:L]]
         ri = fork_int(r1, 0, 1)
         only_shard(sum(o * NOPS**i for i, o in enumerate(prog)) * 2 + ri, P)
         with notrace():
@@ -202,13 +211,13 @@ def make(P):
     return h
 
 
-SYM = ("generated plan: L symbolic opcodes (12 kinds: null, checkpoint, rewindable off/on, stage|unstage, monitor|unmonitor, subscribe|unsubscribe, "
-       "close_run+open_run, set+wait, create/read/save, sleep, trigger+wait) in a fixed skeleton; a pause (resumed) or 1 s suspension at loop step k1 in [0,T+2]; "
+SYM = ("generated plan: L symbolic opcodes (13 kinds: null, checkpoint, rewindable off/on, stage|unstage, monitor|unmonitor, subscribe|unsubscribe, "
+       "close_run+open_run, set+wait, create/read/save, sleep, trigger+wait, stage|unstage of a device whose stage() returns a Status; the two-interruption quick tier uses 6 of them) in a fixed skeleton; a pause (resumed) or 1 s suspension at loop step k1 in [0,T+2]; "
        "optionally a second interruption within `window` steps")
 register(Harness("c04_replay", "C04", make, {"quick": dict(L=2, shards=32, budget_s=300, per_path_s=30), "thorough": dict(L=3, shards=96, budget_s=3000, per_path_s=30)},
                  goals=["paused", "resumed", "suspended", "rewound", "replayed-something"], functions=_fns, mode="schedule", symbolic=SYM,
                  out_of_bound=OUT + "; clear_checkpoint sections (C10); pauses inside a suspender's own pre/post plan", stubs=STUBS, require_exhaustive=True))
-register(Harness("c04_replay_two", "C04", make, {"quick": dict(L=1, two=True, window=6, shards=24, budget_s=300, per_path_s=30),
+register(Harness("c04_replay_two", "C04", make, {"quick": dict(L=2, two=True, window=4, ops=[0, 2, 3, 8, 9, 12], shards=36, budget_s=300, per_path_s=30),
                                                     "thorough": dict(L=2, two=True, window=10, shards=96, budget_s=3000, per_path_s=30)},
                  goals=["paused", "resumed", "suspended", "rewound"], functions=_fns, mode="schedule", symbolic=SYM, out_of_bound=OUT, stubs=STUBS,
                  require_exhaustive=True))
